@@ -1503,6 +1503,10 @@ def _clone_doc_with_one_region(doc: model.ContentDocument, region_id: str):
 
     for child in element:
       new_child = _copy_content_element(new_doc, selected_region, associated_region, child)
+      if new_child is None and isinstance(element, (model.Ruby, model.Rtc)) and isinstance(child, (model.Rt, model.Rtc, model.Rp)):
+        # region selection has removed a ruby annotation: an empty annotation takes its place, so that the ruby container,
+        # with its own timing and styles, is resolved when the snapshot is taken (see ISD._process_element)
+        new_child = type(child)(new_doc)
       if isinstance(new_child, list):
         new_children.extend(new_child)
       elif new_child is not None:
